@@ -63,14 +63,14 @@ def in_parallel(tasks: dict[str, Callable[[], Any]]) -> dict[str, Any]:
 # TLC runs
 
 
-def cfg_mc(dstyle: str, astyle: str, maxlen: int, nested: bool, extra: list[str], invariants: list[str]) -> str:
+def cfg_mc(dstyle: str, astyle: str, maxlen: int, design: str, extra: list[str], invariants: list[str]) -> str:
     inv = "\n".join(f"INVARIANT {i}" for i in invariants)
     return f"""SPECIFICATION Spec
 CONSTANTS
  DStyle = {tla(dstyle)}
  AStyle = {tla(astyle)}
  MaxLen = {maxlen}
- RegisterNested = {tla(nested)}
+ Design = {tla(design)}
  Extra = {tla(set(extra))}
 {inv}
 PROPERTY PropHooksOnlyGrow
@@ -114,13 +114,13 @@ def generate(chk: Check) -> dict[str, Any]:
     thorough = chk.tier == "thorough"
     mc_fams = [
         ("kw", "camel", 4, []),
-        ("camel", "kw", 3, ["list", "bad"]),
+        ("camel", "kw", 3, ["list", "bad", "twin"]),
     ]
     if thorough:
         mc_fams = [
             ("kw", "camel", 4, ["list", "bad", "second"]),
-            ("camel", "kw", 4, ["list", "bad"]),
-            ("swap", "swap", 4, []),
+            ("camel", "kw", 4, ["list", "bad", "twin"]),
+            ("swap", "swap", 4, ["twin"]),
             ("plain", "fold", 3, ["list", "bad", "second"]),
         ]
     six = ["nf", "nr", "kf", "kr", "mr", "av"]
@@ -132,20 +132,23 @@ def generate(chk: Check) -> dict[str, Any]:
         tasks[f"mc{i}"] = lambda ds=ds, as_=as_, ml=ml, extra=extra, i=i: run_tlc(
             sub_scratch(chk, f"mc{i}"),
             "MC_Codec",
-            cfg_mc(ds, as_, ml, True, extra, ["InvHistoryIndependent", "LawsInEveryState"]),
+            cfg_mc(ds, as_, ml, "ok", extra, ["InvHistoryIndependent", "LawsInEveryState"]),
             workers=4,
             coverage=True,
             heap="3g",
         )
-    # the defective design (hooks for the top class only) must be refuted, otherwise the invariant is toothless
-    tasks["mc_refute"] = lambda: run_tlc(
-        sub_scratch(chk, "mcref"),
-        "MC_Codec",
-        cfg_mc("kw", "camel", 2, False, [], ["InvHistoryIndependent"]),
-        workers=2,
-        allow_violation=True,
-        heap="2g",
-    )
+    # the defective designs (hooks for the top class only; structure function cached under the class NAME) must be
+    # refuted, otherwise the invariant is toothless
+    refute = {"top_only": [], "by_name": ["twin"]}
+    for design, extra in refute.items():
+        tasks[f"mc_refute_{design}"] = lambda design=design, extra=extra: run_tlc(
+            sub_scratch(chk, f"mcref_{design}"),
+            "MC_Codec",
+            cfg_mc("kw", "camel", 2, design, extra, ["InvHistoryIndependent"]),
+            workers=2,
+            allow_violation=True,
+            heap="2g",
+        )
     wraps = 3 if thorough else 2
     pl = ["int", "str", "datetime", "bool"] if thorough else ["int"]
     gen_runs = [("single", [a], ["plain"]) for a in ("plain", "camel", "kw")] + [
@@ -172,9 +175,10 @@ def generate(chk: Check) -> dict[str, Any]:
         chk.require(len(scen) == 1 and len(hs) > 0, f"{tagname}: no histories emitted")
         hs.sort(key=lambda h: h["h"])
         out["hist"].append({"tag": tagname, "classes": scen[0]["classes"], "calls": scen[0]["calls"], "hists": hs})
-    r = res["mc_refute"]
-    chk.add_tlc("MC_Codec[RegisterNested=FALSE, must be refuted]", r)
-    chk.require("InvHistoryIndependent" in r.violated, "the defective top-class-only design was NOT refuted: HistoryIndependent is toothless")
+    for design in refute:
+        r = res[f"mc_refute_{design}"]
+        chk.add_tlc(f"MC_Codec[Design={design}, must be refuted]", r)
+        chk.require("InvHistoryIndependent" in r.violated, f"the defective design {design} was NOT refuted: HistoryIndependent is toothless")
     chk.cov["defective_design_refuted"] = True
     for i, (fam, ast, pst) in enumerate(gen_runs):
         r = res[f"gen{i}"]
